@@ -324,6 +324,58 @@ func c10fReadOut(c *Ctx) {
 			}
 		}
 	}
+	// every element of a list that is rendered element by element is rendered: in a loop over a
+	// list whose body writes, no turn comes round without having written (leaving the loop — at the
+	// terminator of a movement, at ITEM_NONE — is not a skip; passing over an item because it equals
+	// the one before, or a raw line because it is blank, is)
+	for _, fn := range c.W.FuncsOf("emitter") {
+		if isTestFunc(c.W, fn) || len(fn.Blocks) == 0 {
+			continue
+		}
+		k := 0
+		for _, h := range fn.Blocks {
+			if !isLoopHeader(h) {
+				continue
+			}
+			// a range over a slice: the header holds the range index phi
+			isRange := false
+			for _, in := range h.Instrs {
+				if ph, ok := in.(*ssa.Phi); ok && strings.Contains(ph.Comment, "rangeindex") {
+					isRange = true
+				}
+			}
+			if !isRange {
+				continue
+			}
+			body := loopBody(h)
+			var sinks []ssa.Instruction
+			for _, ci := range callsIn(fn) {
+				if !body[ci.Block()] || loopHeaders(fn)[ci.Block()] != h {
+					continue
+				}
+				if nm := calleeName(ci); nm == "(*strings.Builder).WriteString" {
+					if _, isC := ci.Common().Args[1].(*ssa.Const); !isC {
+						sinks = append(sinks, ci.(ssa.Instruction))
+					}
+				}
+			}
+			if len(sinks) == 0 {
+				continue
+			}
+			k++
+			// (rendering loops that hand each element to a dispatcher are judged by the dispatch
+			// clauses: Emit, the map script tables)
+			if fn.Name() == "Emit" || fn.Name() == "emitMapScriptStatement" {
+				continue
+			}
+			w, skip := iterationSkipsAny(fn, sinks...)
+			why := ""
+			if skip {
+				why = "a turn of the loop can pass (" + c.nearPos(w) + ") without writing its element: an item, step or line that was written in the source would be missing from the output"
+			}
+			c.Check(!skip, fmt.Sprintf("every-element-rendered/%s#%d", c.W.FuncKey(fn), k), c.W.Pos(sinks[0].Pos()), "every turn of the rendering loop writes its element", why)
+		}
+	}
 	// a rendered piece is written once: no way leads from a write of a computed text to a second
 	// write of the same value without a new turn of the enclosing loop (a command that is
 	// emitted twice runs twice)
